@@ -15,7 +15,7 @@ seeded = sorted(glob.glob('/verif/seeded/*'))
 missed = sum(1 for d in seeded if 'MISSED' in json.load(open(d + '/meta.json'))['violation_class'] or 'HUNG' in json.load(open(d + '/meta.json'))['violation_class'])
 md = "### 10.5 Which checks catch which changes\n\n"
 md += ("All changes compile and pass the repository's 77-test suite. `mutants/*.patch` are my own (written from the properties' "
-       "`why_tests_cant` and from reading the code); `seeded/*/` are the %d changes written in nine waves by independent sub-agents that saw only a "
+       "`why_tests_cant` and from reading the code); `seeded/*/` are the %d changes written in ten waves by independent sub-agents that saw only a "
        "property's text (from the second wave on also one-line descriptions of earlier changes, to avoid repeats) and a scratch worktree. Each was "
        "confirmed by me in a fresh worktree (`tools/confirm_seeded.sh`: suite passes with the change, the agent's demonstration fails with it and "
        "passes without) before I ran my checks on it with `tools/mutant_run.sh` (patch applied to a scratch copy through `VERIF_REPO`; /repo is never "
